@@ -40,7 +40,7 @@ ImgMatches(img, D) ==
 ProbeOK(ev, D) ==
   LET R == ReopenFrom(D) IN
   /\ ev.kf = R.stale
-  /\ R.stale \/                      \* TODO-KNOWN-FINDING (C20-KF1, NOTES.md): a journal of an abandoned
+  /\ R.stale \/                      \* finding C20-F1 (known_findings.json, tolerated by checks/C20.py only via ctx.known_finding): a journal of an abandoned
                                      \* branch is restored; whatever the database does then is pending
      /\ ev.refused = R.dead
      /\ ~ev.rcrash
@@ -53,7 +53,7 @@ ProbeOK(ev, D) ==
                    j2  == IF R.jr.has THEN [R.jr EXCEPT !.rolled = TRUE] ELSE R.jr
                IN  /\ RecoverableIn(R.st, ev.rw)
                    /\ ev.rok /\ out.ok
-                   /\ ObsRec(ev.post2, fin, j2)
+                   /\ ObsRec(ev.post2, fin, j2) \/ ObsRec(ev.post2, fin, NoJournal)
                    /\ fin.disk.root = ev.rw /\ Over(fin.kv.world, fin.buf) = ev.rw
 
 TProbe ==
